@@ -1075,6 +1075,353 @@ fn probe(out: &mut Out, work: &str) {
 	std::process::exit(0);
 }
 
+
+// ---------------------------------------------------------------------------------------------
+// run `txcount`: the open-transaction accounting of store/src/lmdb.rs (`enter_tx`, `TxCounter`,
+// `maybe_resize`) under truly simultaneous use.  Phase 1: N threads each doing K short read
+// transactions (`exists`, `get_ser`, now and then nested under an open iterator of the same thread)
+// at the same time as a small-batch writer; all joined.  Phase 2: a writer commits 32 KiB values
+// until the map (test mode: 1 MiB chunks) has been enlarged at least twice, under a 20 s watchdog;
+// then reads and a batch from fresh threads.  If a single increment/decrement of
+// `open_txs_count` was lost in phase 1 the counter never returns to 0: the first resize that falls
+// due in phase 2 waits for ever and `Store::batch()` (`enter_tx` spinning on `resizing`) never
+// returns - the watchdog reports it.  Model: Model/TxCount.lean (`count_eq_open`,
+// `lost_decrement_witness` in Props/C17.lean); this run is the tie of that model to the code.
+// ---------------------------------------------------------------------------------------------
+
+/// (map size, last page, txn id) of the newest LMDB meta page (see kv.rs::meta_info)
+fn lmdb_meta(dir: &str) -> Option<(u64, u64, u64)> {
+	use std::io::Read;
+	let p = std::path::Path::new(dir).join("multi_lmdb").join("data.mdb");
+	let mut f = std::fs::File::open(p).ok()?;
+	let mut buf = vec![0u8; 2 * 4096];
+	f.read_exact(&mut buf).ok()?;
+	let rd = |o: usize| u64::from_le_bytes(buf[o..o + 8].try_into().unwrap());
+	let mut best: Option<(u64, u64, u64)> = None;
+	for pg in 0..2 {
+		let b = pg * 4096 + 16;
+		let magic = u32::from_le_bytes(buf[b..b + 4].try_into().unwrap());
+		if magic != 0xBEEFC0DE {
+			continue;
+		}
+		let m = (rd(b + 16), rd(b + 24 + 96), rd(b + 24 + 96 + 8));
+		if best.map(|x| m.2 >= x.2).unwrap_or(true) {
+			best = Some(m);
+		}
+	}
+	best
+}
+
+fn txcount(out: &mut Out, work: &str, seed: u64, thorough: bool) {
+	use grin_store::Store;
+	const DB: Option<u8> = Some(b'A');
+	const NKEYS: u64 = 64;
+	let dir = format!("{}/txcount", work);
+	let _ = std::fs::remove_dir_all(&dir);
+	let store = Arc::new(Store::new(&dir, None, Some("txc"), vec![b'A'], None, None).expect("Store::new"));
+	let nthreads: usize = if thorough { 12 } else { 8 };
+	let reads: u64 = if thorough { 1_000_000 } else { 250_000 };
+	let key = |i: u64| format!("k{:03}", i).into_bytes();
+	{
+		let mut b = store.batch().expect("batch");
+		for i in 0..NKEYS {
+			if i % 2 == 0 {
+				b.put(DB, &key(i), &i.to_be_bytes()).expect("put");
+			}
+		}
+		b.commit().expect("commit");
+	}
+	let map0 = lmdb_meta(&dir).map(|m| m.0).unwrap_or(0);
+
+	// ---- phase 1: readers and a small-batch writer at the same time
+	let t1 = Instant::now();
+	let running = Arc::new(AtomicUsize::new(nthreads));
+	let gate = Arc::new(std::sync::Barrier::new(nthreads + 1));
+	let (txc, rxc) = mpsc::channel::<(usize, [u64; 6])>();
+	let mut handles = vec![];
+	for t in 0..nthreads {
+		let store = store.clone();
+		let txc = txc.clone();
+		let gate = gate.clone();
+		let running = running.clone();
+		handles.push(std::thread::spawn(move || {
+			setup_globals();
+			let mut rng = Rng::new(seed ^ (0x7C0 + t as u64));
+			// [exists true, exists false, get some, get none, nested, errors]
+			let mut c = [0u64; 6];
+			gate.wait();
+			for n in 0..reads {
+				let k = key(rng.below(NKEYS + 8));
+				if n % 1000 == 999 {
+					// nested: this thread holds an iterator (one counted transaction) and reads under it
+					match store.iter(DB, |k, v| Ok((k.to_vec(), v.to_vec()))) {
+						Ok(mut it) => {
+							let _ = it.next();
+							match store.exists(DB, &k) {
+								Ok(_) => c[4] += 1,
+								Err(_) => c[5] += 1,
+							}
+							drop(it);
+						}
+						Err(_) => c[5] += 1,
+					}
+				} else if n % 2 == 0 {
+					match store.exists(DB, &k) {
+						Ok(true) => c[0] += 1,
+						Ok(false) => c[1] += 1,
+						Err(_) => c[5] += 1,
+					}
+				} else {
+					match store.get_ser::<Vec<u8>>(DB, &k, None) {
+						Ok(Some(_)) => c[2] += 1,
+						Ok(None) => c[3] += 1,
+						Err(_) => c[5] += 1,
+					}
+				}
+			}
+			running.fetch_sub(1, Ordering::SeqCst);
+			let _ = txc.send((t, c));
+		}));
+	}
+	drop(txc);
+	let (wtx, wrx) = mpsc::channel::<(u64, u64)>();
+	let wh = {
+		let store = store.clone();
+		let gate = gate.clone();
+		let running = running.clone();
+		std::thread::spawn(move || {
+			setup_globals();
+			let mut rng = Rng::new(seed ^ 0x77);
+			let (mut commits, mut errs) = (0u64, 0u64);
+			gate.wait();
+			while running.load(Ordering::SeqCst) > 0 {
+				match store.batch() {
+					Ok(mut b) => {
+						for _ in 0..rng.range(1, 3) {
+							let i = rng.below(NKEYS);
+							let r = if rng.chance(1, 4) {
+								b.delete(DB, &key(i))
+							} else {
+								let n = rng.range(1, 200) as usize;
+								b.put(DB, &key(i), &rng.bytes(n))
+							};
+							if r.is_err() {
+								errs += 1;
+							}
+						}
+						if rng.chance(9, 10) {
+							if b.commit().is_err() {
+								errs += 1;
+							}
+							commits += 1;
+						}
+					}
+					Err(_) => errs += 1,
+				}
+			}
+			let _ = wtx.send((commits, errs));
+		})
+	};
+	let mut per_thread = vec![[0u64; 6]; nthreads];
+	let mut joined = 0usize;
+	let limit1 = Duration::from_secs(if thorough { 240 } else { 60 });
+	while joined < nthreads {
+		match rxc.recv_timeout(limit1.saturating_sub(t1.elapsed()).max(Duration::from_millis(1))) {
+			Ok((t, c)) => {
+				per_thread[t] = c;
+				joined += 1;
+			}
+			Err(_) => break,
+		}
+	}
+	let mut verdict = "completed".to_string();
+	if joined < nthreads {
+		out.raw(&format!(
+			"#ORACLE-FAIL C17 txcount: only {} of {} reader threads ({} short read transactions each, concurrent with a small-batch writer) finished within {} s: the store stalled",
+			joined, nthreads, reads, limit1.as_secs()
+		));
+		verdict = "stalled:readers".to_string();
+	}
+	let wres = wrx.recv_timeout(Duration::from_secs(20));
+	if verdict == "completed" {
+		for h in handles {
+			let _ = h.join();
+		}
+		if wres.is_ok() {
+			let _ = wh.join();
+		}
+	}
+	let (wcommits, werrs) = match wres {
+		Ok(x) => x,
+		Err(_) => {
+			if verdict == "completed" {
+				out.raw("#ORACLE-FAIL C17 txcount: the small-batch writer running next to the readers did not finish within 20 s after them: the store stalled");
+				verdict = "stalled:writer".to_string();
+			}
+			(0, 0)
+		}
+	};
+	let p1_ms = t1.elapsed().as_millis();
+	let sum = |i: usize| per_thread.iter().map(|c| c[i]).sum::<u64>();
+	let rerrs = sum(5);
+	if rerrs + werrs > 0 {
+		out.raw(&format!("#ORACLE-FAIL C17 txcount: {} read operations and {} writer operations failed in phase 1", rerrs, werrs));
+	}
+	out.raw(&format!(
+		"#STAT txcount:phase1 threads={} reads/thread={} total-read-txs={} exists(true/false)={}/{} get_ser(some/none)={}/{} nested-under-own-iterator={} read-errors={} writer-commits-meanwhile={} writer-errors={} ms={}",
+		nthreads, reads, nthreads as u64 * reads, sum(0), sum(1), sum(2), sum(3), sum(4), rerrs, wcommits, werrs, p1_ms
+	));
+	let mins = per_thread.iter().map(|c| c.iter().take(5).sum::<u64>()).min().unwrap_or(0);
+	let maxs = per_thread.iter().map(|c| c.iter().take(5).sum::<u64>()).max().unwrap_or(0);
+	out.raw(&format!("#STAT txcount:phase1 completed read txs per thread min={} max={}", mins, maxs));
+
+	// manual self-test of the watchdog path (never set by the check): leak one counted transaction
+	// through the public API (an iterator that is never dropped), which is exactly the state a lost
+	// decrement leaves behind - phase 2 must then be reported as stalled
+	if std::env::var("TXCOUNT_SELFTEST_LEAK").is_ok() {
+		let store = store.clone();
+		let _ = std::thread::spawn(move || {
+			setup_globals();
+			if let Ok(it) = store.iter(DB, |k, v| Ok((k.to_vec(), v.to_vec()))) {
+				std::mem::forget(it);
+			}
+		})
+		.join();
+		out.raw("#STAT txcount:SELFTEST one counted transaction leaked on purpose");
+	}
+
+	// ---- phase 2: push the map across its resize threshold at least twice, 20 s watchdog
+	let mut sizes = vec![map0];
+	let mut p2_commits = 0u64;
+	let mut max_batch_ms = 0u128;
+	let t2 = Instant::now();
+	if verdict == "completed" {
+		let (ptx, prx) = mpsc::channel::<Result<(u64, u64, u128), String>>();
+		{
+			let store = store.clone();
+			let dir = dir.clone();
+			std::thread::spawn(move || {
+				setup_globals();
+				let mut last = map0;
+				let mut grown = 0;
+				for i in 0..600u64 {
+					let t0 = Instant::now();
+					let mut b = match store.batch() {
+						Ok(b) => b,
+						Err(e) => {
+							let _ = ptx.send(Err(format!("Store::batch failed at commit {}: {:?}", i, e)));
+							return;
+						}
+					};
+					let ms = t0.elapsed().as_millis();
+					let v = vec![(i % 251) as u8; 32 * 1024];
+					if let Err(e) = b.put(DB, format!("big{:05}", i).as_bytes(), &v) {
+						let _ = ptx.send(Err(format!("put of 32 KiB failed at commit {}: {:?}", i, e)));
+						return;
+					}
+					if let Err(e) = b.commit() {
+						let _ = ptx.send(Err(format!("commit {} failed: {:?}", i, e)));
+						return;
+					}
+					let m = lmdb_meta(&dir).map(|m| m.0).unwrap_or(last);
+					let _ = ptx.send(Ok((i + 1, m, ms)));
+					if m != last {
+						last = m;
+						grown += 1;
+						if grown >= 2 {
+							return;
+						}
+					}
+				}
+			});
+		}
+		let limit2 = Duration::from_secs(20);
+		loop {
+			match prx.recv_timeout(limit2.saturating_sub(t2.elapsed()).max(Duration::from_millis(1))) {
+				Ok(Ok((n, m, ms))) => {
+					p2_commits = n;
+					max_batch_ms = max_batch_ms.max(ms);
+					if m != *sizes.last().unwrap() {
+						sizes.push(m);
+					}
+				}
+				Ok(Err(e)) => {
+					out.raw(&format!("#ORACLE-FAIL C17 txcount: after {} threads x {} read transactions (all joined) the growing writer failed: {} (map sizes so far {:?})", nthreads, reads, e, sizes));
+					verdict = "failed:grow".to_string();
+					break;
+				}
+				Err(mpsc::RecvTimeoutError::Disconnected) => break,
+				Err(mpsc::RecvTimeoutError::Timeout) => {
+					out.raw(&format!(
+						"#ORACLE-FAIL C17 txcount: after {} threads x {} short read transactions concurrent with a small-batch writer (all joined, no transaction open any more), a writer committing 32 KiB values stalled: {} commits done, map sizes {:?}, then Store::batch()/commit did not return within the 20 s watchdog (a resize was due: used {:?} of the map) - the open-transaction counter did not return to 0",
+						nthreads, reads, p2_commits, sizes, lmdb_meta(&dir).map(|m| m.1 * 4096)
+					));
+					verdict = "stalled:resize".to_string();
+					break;
+				}
+			}
+		}
+		if verdict == "completed" && sizes.len() < 3 {
+			out.raw(&format!("#ORACLE-FAIL C17 txcount: 600 commits of 32 KiB values enlarged the map only {} times ({:?})", sizes.len() - 1, sizes));
+			verdict = "failed:no-resize".to_string();
+		}
+	}
+	let p2_ms = t2.elapsed().as_millis();
+
+	// ---- afterwards: every later read / batch must complete (fresh threads, 5 s watchdog)
+	let mut after = "skipped";
+	if verdict == "completed" {
+		let (atx, arx) = mpsc::channel::<String>();
+		let store2 = store.clone();
+		std::thread::spawn(move || {
+			setup_globals();
+			let mut bad = vec![];
+			match store2.exists(DB, b"big00000") {
+				Ok(true) => {}
+				other => bad.push(format!("exists(big00000)={:?}", other)),
+			}
+			match store2.get_ser::<Vec<u8>>(DB, b"big00001", None) {
+				Ok(Some(v)) if v.len() == 32 * 1024 => {}
+				other => bad.push(format!("get_ser(big00001)={:?}", other.map(|o| o.map(|v| v.len())))),
+			}
+			match store2.batch() {
+				Ok(mut b) => {
+					if b.put(DB, b"after", b"1").is_err() || b.commit().is_err() {
+						bad.push("batch after the resizes failed".to_string());
+					}
+				}
+				Err(e) => bad.push(format!("batch()={:?}", e)),
+			}
+			match store2.get_ser::<Vec<u8>>(DB, b"after", None) {
+				Ok(Some(v)) if v == b"1" => {}
+				other => bad.push(format!("get_ser(after)={:?}", other)),
+			}
+			let _ = atx.send(bad.join("; "));
+		});
+		match arx.recv_timeout(Duration::from_secs(5)) {
+			Ok(s) if s.is_empty() => after = "ok",
+			Ok(s) => {
+				out.raw(&format!("#ORACLE-FAIL C17 txcount: after the resizes: {}", s));
+				verdict = "failed:after".to_string();
+				after = "wrong";
+			}
+			Err(_) => {
+				out.raw("#ORACLE-FAIL C17 txcount: after the resizes a read / batch from a fresh thread does not return within 5 s");
+				verdict = "stalled:after".to_string();
+				after = "stalled";
+			}
+		}
+	}
+	out.raw(&format!(
+		"#STAT txcount:phase2 commits-of-32KiB={} map-sizes={:?} resizes={} max-ms-in-Store::batch()={} ms={} watchdog=20s; reads-and-batch-afterwards={}",
+		p2_commits, sizes, sizes.len() - 1, max_batch_ms, p2_ms, after
+	));
+	out.line(&format!("conc txcount threads={} reads={} seed={}", nthreads, reads, seed), &verdict);
+	out.flush();
+	// a stalled store leaves threads blocked for ever
+	std::process::exit(0);
+}
+
 fn main() {
 	quiet_panics();
 	setup_globals();
@@ -1091,6 +1438,10 @@ fn main() {
 	}
 	if mode == "probe" {
 		probe(&mut out, &work);
+		return;
+	}
+	if mode == "txcount" {
+		txcount(&mut out, &work, seed_from_env(), tier_thorough());
 		return;
 	}
 
